@@ -197,7 +197,7 @@ def panic_class(rec):
 FINDING_CLASSES = [
     ("handler-not-a-closure-leaves-frames", [r"residue:handler-not-a-closure", r"history:handler-not-a-closure-twice"]),
     ("panic-while-jit-frames-are-active-aborts", [r"abort:panic-cannot-unwind.*"]),
-    ("caught-panic-leaves-engine-state", [r"after-panic:.*"]),
+    ("caught-panic-leaves-engine-state", [r"after-panic:.*", r"(exit:4:|panic:|thread-panic:).*jit\.rs:jit_compile_lambda"]),
     ("assert-builtin-panics", [r"panic:crates/steel-core/src/primitives/meta_ops\.rs:assert_truthy"]),
     ("builtin-indexes-args-without-arity-check",
      [r"panic:crates/steel-core/src/steel_vm/primitives\.rs:raise_error_from_error", r"panic:crates/steel-core/src/rvals\.rs:iterator_next",
@@ -220,16 +220,20 @@ FINDING_CLASSES = [
     ("mvector-index-unchecked", [r"panic:crates/steel-core/src/steel_vm/primitives\.rs:vector_(ref|set)"]),
     ("require-only-in-non-identifier-unwrap", [r"panic:crates/steel-core/src/compiler/modules\.rs:compile_main"]),
     ("thread-copy-inside-open-continuation-mark-assertion", [r"panic:crates/steel-core/src/steel_vm/vm\.rs:close"]),
+    ("negative-count-becomes-huge", [r"hang:builtin:(range-vec|make-struct-type)", r"abort:out-of-memory:builtin:(range-vec|make-struct-type)"]),
     ("unbounded-allocation-request",
      [r"abort:out-of-memory.*", r"abort:capacity-overflow.*", r"panic:library/alloc/src/raw_vec/mod\.rs@.*",
-      r"hang:builtin:(make-bytes|make-bytevector|make-string|make-immutable-vector|make-vector|list-drop|range)"]),
-    ("negative-count-becomes-huge", [r"hang:builtin:(range-vec|make-struct-type)"]),
+      r"hang:builtin:(make-bytes|make-bytevector|make-string|make-immutable-vector|make-vector|list-drop|range|expt|exact-integer-sqrt|square|arithmetic-shift)",
+      r"panic:num-bigint/src/biguint/power\.rs@.*"]),
     ("mutable-vector-lock-reentry-deadlock", [r"hang:builtin:(vector-append!|vector-fill!|vector-copy!)", r"hang:evaluation-ignores-interrupt"]),
     ("native-stack-overflow-reader", [r"stack-overflow:read"]),
     ("native-stack-overflow-expander", [r"stack-overflow:expand"]),
     ("native-stack-overflow-compiler", [r"stack-overflow:compile"]),
     ("native-stack-overflow-run", [r"stack-overflow:run", r"stack-overflow:builtin:.*"]),
     ("superlinear-front-end-time", [r"hang:(reader|expander|compiler)-time"]),
+    ("defmacro-without-name-index-panic", [r"panic:crates/steel-core/src/parser/kernel\.rs:load_syntax_transformers"]),
+    ("jit-compile-already-visited-instruction", [r"(panic|abort:panic-cannot-unwind):crates/steel-core/src/jit2/cgen\.rs:stack_to_ssa"]),
+    ("module-get-unknown-symbol-panics", [r"panic:crates/steel-core/src/steel_vm/builtin\.rs:get"]),
     ("macro-of-failed-program-stays-defined", [r"history:macro-of-failed-program-is-not-defined"]),
     ("continuation-of-finished-evaluation", [r"history:continuation-of-earlier-.*"]),
 ]
@@ -254,8 +258,10 @@ class Classes:
         key = finding_class(raw)
         if key != raw:
             detail = "[%s] %s" % (raw, detail)
-        c = self.by.setdefault(key, {"count": 0, "replay": replay, "detail": detail, "sources": {}, "examples": []})
+        c = self.by.setdefault(key, {"count": 0, "replay": replay, "detail": detail, "sources": {}, "examples": [], "details": []})
         c["count"] += 1
+        if len(c["details"]) < 60 and detail[:160] not in c["details"]:
+            c["details"].append(detail[:160])
         c["sources"][source] = c["sources"].get(source, 0) + 1
         if len(replay) < len(c["replay"]):
             c["replay"], c["detail"] = replay, detail
@@ -369,7 +375,8 @@ def run_builtins(ctx, classes, stats):
         if " " in name:
             continue
         for a in arities_for(arity, quick):
-            mode = 1 if (a == 3 and quick) else 0
+            # arity 3: pairwise in the quick tier and for procedures of unknown arity, exhaustive otherwise
+            mode = 1 if (a == 3 and (quick or arity == "?")) else 0
             total = {0: 1, 1: n, 2: n * n}.get(a, n * n if mode == 1 else n ** 3)
             # split big sweeps so that the work spreads over the processes
             step = 40000
@@ -569,6 +576,8 @@ def confirm_builtin_events(ctx, raw, pool, n, classes, stats):
                     key = "hang:builtin:" + name
                 elif key.startswith("stack-overflow:"):
                     key = "stack-overflow:builtin:" + name
+                elif key.startswith("abort:out-of-memory"):
+                    key = "abort:out-of-memory:builtin:" + name
                 classes.add(key, text, det + "  [built-in %s, tuple %d]" % (fkey, k), "builtins")
             continue
         if kind == "hang":
@@ -617,6 +626,12 @@ def probe_names():
         rc, out = C.sh([BIN, "probe"], timeout=60)
         toks = set(re.findall(r"[^\s()\[\]'\"]+", out.split(";;; expected")[0]))
         PROBE_NAMES = {t for t in toks if not re.match(r"^-?\d", t)} | {"C07S", "c07-keep", "c07-keep-fn", "#%verif-stack-depth"}
+        # what the prelude macros used by the probe (with-handler = reset / shift around call-with-exception-handler,
+        # struct) expand to
+        PROBE_NAMES |= {"reset", "shift", "*reset", "*shift", "*abort", "*meta-continuation*", "call-with-exception-handler",
+                        "call-with-current-continuation", "void", "#%void", "make-struct-type", "values", "call-with-values",
+                        "dynamic-wind", "get-tls", "set-tls!", "make-tls", "apply", "cons", "cdr", "null?", "empty?", "not", "eq?",
+                        "equal?", "list?", "pair?", "begin", "let*", "letrec", "cond", "when", "unless", "and", "or", "quote"}
     return PROBE_NAMES
 
 
@@ -719,12 +734,28 @@ def run_texts(ctx, items, fresh_each=False, tag="t", engine_every=40, phases=Tru
             cur = None
             ended = False
             hooks = []
+            # which texts ran before on the same engine: the job list restarts the engine at `N`, the harness does it
+            # after a panic / a probe mismatch (record `N <id>`)
+            fresh_before = set()
+            c = 0
+            for ln in lines:
+                if ln == "N":
+                    fresh_before.add(c)
+                else:
+                    c += 1
+            order = {i: k for k, i in enumerate(todo)}
+            epoch = []
             for r in recs:
                 f = r.split(" ", 2)
                 if f[0] == "B":
                     cur = int(f[1])
-                    local[cur] = {"others": []}
+                    if order.get(cur) in fresh_before:
+                        epoch = []
+                    local[cur] = {"others": [], "epoch": list(epoch)}
+                    epoch.append(cur)
                     hooks = []
+                elif f[0] == "N" and cur is not None:
+                    epoch = []
                 elif f[0] == "R" and cur is not None:
                     local[cur]["res"] = f[2] if len(f) > 2 else ""
                 elif f[0] == "D" and cur is not None:
@@ -776,6 +807,8 @@ def run_texts(ctx, items, fresh_each=False, tag="t", engine_every=40, phases=Tru
     t_a = time.time()
     for local in C.pool_map(worker, list(range(nw)), workers=nw):
         for i, r in local.items():
+            if "epoch" in r:
+                r["epoch"] = [items[j][0] for j in r["epoch"]]
             results[items[i][0]] = r
     t_b = time.time()
     if phases:
@@ -788,6 +821,54 @@ def run_texts(ctx, items, fresh_each=False, tag="t", engine_every=40, phases=Tru
     return results
 
 
+def run_sequences(ctx, seqs, tag="s", hard_ms=12000):
+    """seqs: list of lists of byte strings; each sequence runs on its own fresh engine (own child process).
+    Returns, per sequence, the result dict of its LAST text (None if the child died before)."""
+    def one(arg):
+        slot, seq = arg
+        out = os.path.join(SCRATCH, "%s%d.out" % (tag, slot % 64))
+        out = os.path.join(SCRATCH, "%s-%d.out" % (tag, slot))
+        lines = ["T %d %s" % (i, b.hex()) for i, b in enumerate(seq)]
+        rc, tail = spawn("texts", lines, out, os.path.join(SCRATCH, "sandbox", "%s%d" % (tag, slot % 32)),
+                         env={"C07_SOFT_MS": "3000", "C07_HARD_MS": str(hard_ms)}, timeout=60 + 15 * len(seq))
+        got = {}
+        cur = None
+        hooks = []
+        for r in read_records(out):
+            f = r.split(" ", 2)
+            if f[0] == "B":
+                cur = int(f[1])
+                got[cur] = {"others": []}
+            elif cur is None:
+                continue
+            elif f[0] == "R":
+                got[cur]["res"] = f[2] if len(f) > 2 else ""
+            elif f[0] == "D":
+                got[cur]["depth"] = f[2] if len(f) > 2 else ""
+            elif f[0] == "Q":
+                q = f[2] if len(f) > 2 else ""
+                got[cur]["probe"] = q if q == "same" else bytes.fromhex(q).decode("utf-8", "replace")
+            elif f[0] == "O":
+                got[cur]["others"].append(f[2] if len(f) > 2 else "")
+            elif f[0] == "K":
+                hooks.append(r[2:])
+            elif f[0] == "H":
+                got[cur]["hang"] = True
+        try:
+            os.remove(out)
+        except OSError:
+            pass
+        last = len(seq) - 1
+        if last in got:
+            r = got[last]
+            if "res" not in r and not r.get("hang"):
+                r["death"] = death_signature(rc, tail)
+                r["hook"] = hooks[-1] if hooks else ""
+            return r
+        return None
+    return C.pool_map(one, list(enumerate(seqs)))
+
+
 def overflow_phase(ctx, b, slot=0):
     out = os.path.join(SCRATCH, "phase%d.out" % slot)
     rc, tail = spawn("phase", ["T 0 " + b.hex()], out, os.path.join(SCRATCH, "sandbox", "phase%d" % slot), timeout=25)
@@ -796,6 +877,107 @@ def overflow_phase(ctx, b, slot=0):
         if r.startswith("PH "):
             last = r.split(" ")[2]
     return {"start": "read", "read": "expand", "expand": "compile", "compile": "run"}.get(last, "?") if "END" not in read_records(out) else "not-reproduced-in-phases"
+
+
+# ------------------------------------------------------------------------------------------------------------------
+# correspondence of the recovery model (lean/SteelVerif/C07/Model.lean) with the real engine
+
+def gen_rec_expr(r, d):
+    """(steel source, model code) of an expression; every value is a number, the only failing primitive is (car 5).
+    Shapes are chosen so that the model's frames are real frames of the VM: the operator of a call is a computed value
+    (an immediately applied lambda is compiled as a `let`, a known same-unit procedure may be inlined), and every
+    frame-pushing expression sits in operand position of `(+ 0 _)` (a call in tail position re-uses the frame)."""
+    k = r.randrange(11) if d > 0 else r.choice([0, 0, 0, 9])
+    if k <= 1:
+        n = r.randrange(1, 9)
+        return str(n), "P%d" % n
+    if k == 2:
+        a, b = gen_rec_expr(r, d - 1), gen_rec_expr(r, d - 1)
+        return "(+ %s %s)" % (a[0], b[0]), "%s %s O O P0" % (a[1], b[1])
+    if k == 3:
+        a, b = gen_rec_expr(r, d - 1), gen_rec_expr(r, d - 1)
+        return "(+ 0 ((car (list (lambda (x) %s))) %s))" % (b[0], a[0]), "P0 %s C[%s] O O O P0" % (a[1], b[1])
+    if k in (4, 5):
+        h, b = gen_rec_expr(r, d - 1), gen_rec_expr(r, d - 1)
+        # the primitive, not the `with-handler` macro (which wraps it in reset / shift: continuations are C08's model)
+        return "(+ 0 (call-with-exception-handler (lambda (e) %s) (lambda () %s)))" % (h[0], b[0]), "P0 H[O %s][%s] O O P0" % (h[1], b[1])
+    if k == 6:
+        b = gen_rec_expr(r, d - 1)
+        return "(+ 0 (call-with-exception-handler list (lambda () %s)))" % b[0], "P0 B[%s] O O P0" % b[1]
+    if k == 7:
+        b = gen_rec_expr(r, d - 1)
+        return "(+ 0 (call/cc (lambda (k) %s)))" % b[0], "P0 K[%s] O O P0" % b[1]
+    if k == 8:
+        a, b = gen_rec_expr(r, d - 1), gen_rec_expr(r, d - 1)
+        return "(begin %s %s)" % (a[0], b[0]), "%s O %s" % (a[1], b[1])
+    if k == 9:
+        return "(car 5)", "F1"
+    a = gen_rec_expr(r, d - 1)
+    return "(list %s (car 5))" % a[0], "%s F1" % a[1]
+
+
+def run_model_correspondence(ctx, classes, stats):
+    r = random.Random(ctx.seed * 31337 + 5)
+    n = 240 if ctx.quick() else 3000
+    progs = []
+    for i in range(n):
+        forms_s, forms_m, defined = [], [], []
+        for j in range(r.choice([1, 2, 2, 3])):
+            e = gen_rec_expr(r, r.choice([2, 3, 4]))
+            if r.random() < 0.5:
+                g = i * 10 + j
+                forms_s.append("(define c07g%d %s)" % (g, e[0]))
+                forms_m.append("%s D%d" % (e[1], g))
+            else:
+                forms_s.append(e[0])
+                forms_m.append(e[1])
+        progs.append(("\n".join(forms_s), "|".join(forms_m)))
+    rc, out, err = C.run_bin([C.driver_path("c07driver")], "\n".join(m for _, m in progs) + "\n", timeout=300)
+    mlines = out.splitlines()
+    if rc != 0 or len(mlines) != len(progs):
+        ctx.violation("C07-driver.txt", "c07driver failed on the recovery programs (rc=%d, %d of %d answers)\n%s\n" % (rc, len(mlines), len(progs), err[-500:]), no_input=True)
+        return
+    res = run_texts(ctx, [("m%d" % i, s.encode()) for i, (s, _) in enumerate(progs)], tag="m", phases=False, engine_every=25)
+    dist = {}
+    mism = 0
+    for i, ((src, mcode), ml) in enumerate(zip(progs, mlines)):
+        rr = res.get("m%d" % i) or {}
+        m = re.match(r"(ok|error|bad-handler|panic|out-of-fuel)\S* ?\S* ?frames=(\d+) stack=(\d+) globals=(\S*)", ml)
+        if not m:
+            m = re.match(r"(ok \d+|error \d+|bad-handler|panic|out-of-fuel) frames=(\d+) stack=(\d+) globals=(\S*)", ml)
+        mo = ml.split(" ")[0]
+        mf = int(re.search(r"frames=(\d+)", ml).group(1))
+        ms = int(re.search(r"stack=(\d+)", ml).group(1))
+        rs = rr.get("res", "")
+        if rs.startswith("ok"):
+            ro = "ok"
+        elif rs.startswith("err") and "expected a function for the exception handler" in rs:
+            ro = "bad-handler"
+        elif rs.startswith("err"):
+            ro = "error"
+        else:
+            ro = "other:" + (rs[:40] or str(rr.get("death") or rr.get("hang")))
+        dist[mo] = dist.get(mo, 0) + 1
+        same = (mo == ro)
+        if same and ro != "ok":
+            d = rr.get("depth", "0 0")
+            mm = re.match(r"^(\d+) (\d+)$", d)
+            if not mm:
+                # frames with open continuation marks were left behind: with debug assertions the depth query itself
+                # fails in ContinuationMark::close.  Agrees with the model iff the model also leaves something behind.
+                same = d.startswith("panic") and "ContinuationMark::close" in d and (mf > 0 or ms > 0)
+                stats["model_residue_seen_as_assertion"] = stats.get("model_residue_seen_as_assertion", 0) + (1 if same else 0)
+            else:
+                # property level observables: is anything left on the frame stack / the operand stack
+                same = ((int(mm.group(1)) > 0) == (mf > 0)) and ((int(mm.group(2)) > 0) == (ms > 0))
+        if not same:
+            mism += 1
+            if mism <= 3:
+                ctx.violation("C07-model-mismatch-%d.txt" % mism, "the recovery model and the engine disagree (impl != M)\n%s\n;; model program: %s\n;; model : %s\n;; engine: %s depth=%s\n" % (
+                    src, mcode, ml, rs[:200], rr.get("depth")), no_input=True)
+    stats["model_programs"] = len(progs)
+    stats["model_outcomes"] = dist
+    stats["model_mismatches"] = mism
 
 
 # ------------------------------------------------------------------------------------------------------------------
@@ -1117,7 +1299,7 @@ def gen_texts(ctx, stats):
         add("corpus", k, b)
     for k, b in deep_texts(r, quick):
         add("deep", k, b)
-    n_rand = 400 if quick else 20000
+    n_rand = 400 if quick else 10000
     for _ in range(n_rand):
         add("unicode", "unicode", rnd_unicode(r, r.choice([1, 3, 8, 20, 60, 200])).encode("utf-8"))
     for _ in range(n_rand // 2):
@@ -1128,7 +1310,7 @@ def gen_texts(ctx, stats):
             add("tokens", "tokens", (K12.gen_token_text(r) if r.random() < 0.6 else K12.gen_balanced(r)).encode("utf-8", "replace"))
     except Exception:           # the C12 generators are a bonus stream
         pass
-    n_prog = 500 if quick else 30000
+    n_prog = 500 if quick else 15000
     for _ in range(n_prog):
         p = gen_program(r, r.choice([2, 3, 3]))[0]
         if r.random() < 0.85:
@@ -1136,7 +1318,7 @@ def gen_texts(ctx, stats):
         add("grammar", "grammar", p.encode("utf-8", "replace"))
     files = suite_files()
     stats["suite_files"] = len(files)
-    n_suite = 700 if quick else 40000
+    n_suite = 700 if quick else 20000
     srcs = [(f, open(f, "rb").read()) for f in files]
     for i in range(n_suite):
         f, b = srcs[r.randrange(len(srcs))] if i >= len(srcs) or quick else srcs[i]
@@ -1174,6 +1356,43 @@ def load_known(ctx):
             if l.startswith("#!c07 class: "):
                 known.setdefault(l[len("#!c07 class: "):].strip(), (kid, what))
     return known
+
+
+def check_site_table(ctx, classes, stats):
+    """tie between the reviewed table of panic sites and what was observed: a panic observed at an extracted site must
+    be judged `reachable` there; every finding class named by a reachable site must exist"""
+    rc, out, err = C.run_bin([C.driver_path("c07driver"), "tables"], "", timeout=120)
+    sites = {}
+    named = set()
+    rows = []
+    for l in out.splitlines():
+        f = l.split(" ")
+        if f[0] == "site" and len(f) >= 6:
+            sites[(f[2], int(f[3]))] = f[1]
+        elif f[0] == "reachable" and len(f) >= 3:
+            named.add(f[1])
+        elif f[0] in ("arms2", "arms1", "unclassified", "stale", "sites"):
+            rows.append(l)
+    stats["tables"] = rows[:40]
+    observed = set()
+    for c in classes.by.values():
+        for m in re.finditer(r"crates/steel-core/src/((?:primitives/\w+|steel_vm/primitives)\.rs):(\d+)", c["detail"] + " " + " ".join(c.get("details", []))):
+            observed.add((m.group(1), int(m.group(2))))
+    wrong = []
+    outside = []
+    for loc in sorted(observed):
+        v = sites.get(loc)
+        if v is None:
+            outside.append("%s:%d" % loc)
+        elif v != "reachable":
+            wrong.append("%s:%d is judged `%s` in LemmasSites.lean but a panic was observed there" % (loc[0], loc[1], v))
+    stats["panics_observed_at_reviewed_sites"] = len(observed) - len(outside)
+    stats["panics_observed_outside_extracted_kinds"] = outside
+    known_classes = {name for name, _ in FINDING_CLASSES}
+    missing = sorted(n for n in named if n not in known_classes)
+    if wrong or missing:
+        ctx.violation("C07-site-table.txt", "the reviewed table of panic sites disagrees with the run:\n" + "\n".join(
+            wrong + ["finding class `%s` named by a reachable site is not a class of checks/c07.py" % n for n in missing]) + "\n", no_input=True)
 
 
 def decide(ctx, classes, known, stats):
@@ -1254,30 +1473,76 @@ def run(ctx):
     # every failure is replayed alone on a fresh engine; what reproduces there is reported with that single text
     alone = run_texts(ctx, [(k, b) for k, b, _ in suspects], fresh_each=True, tag="a", hard_ms=12000, batch=3) if suspects else {}
     excused = 0
+    by_key = dict(items)
+    investigated = {}
+    pending = []          # failures that need their history: (key, text bytes, first-pass result)
     for key, b, r in suspects:
         ra = alone.get(key)
         text = b.decode("utf-8", "replace")
         fa = failure_classes(ra) if ra else []
         src = key.split("#")[0].split(":")[0]
-        for ck, det in (fa or failure_classes(r)):
+        if not fa:
+            pending.append((key, b, r))
+            continue
+        for ck, det in fa:
             if ck.startswith("probe:") and redefines_probe_name(text):
                 excused += 1
                 continue
-            if ck.startswith("hang:") and not fa:
-                # slower than the first pass's limit under load, but it answered within the longer limit alone
-                stats["slow_not_hung_texts"] = stats.get("slow_not_hung_texts", 0) + 1
-                continue
-            note = "" if fa else "  [only in a history of evaluations on one engine; replay = the failing text, history lost]"
-            classes.add(ck, text, det + note, src)
+            classes.add(ck, text, det, src)
+    # failures that only show in a history of evaluations on one engine: find the earlier text that matters
+    seqs, owners = [], []
+    for key, b, r in pending:
+        cls = tuple(sorted(ck for ck, _ in failure_classes(r) if not ck.startswith("hang:")))
+        if not cls:
+            stats["slow_not_hung_texts"] = stats.get("slow_not_hung_texts", 0) + 1
+            continue            # slower than the first pass's limit under load, answered alone
+        if investigated.get(cls, 0) >= (2 if ctx.quick() else 4):
+            continue
+        investigated[cls] = investigated.get(cls, 0) + 1
+        ep = [k for k in r.get("epoch", []) if k in by_key][-40:]
+        for k in ep:
+            seqs.append([by_key[k], b])
+            owners.append((key, [k]))
+        seqs.append([by_key[k] for k in ep] + [b])
+        owners.append((key, ep))
+    got = run_sequences(ctx, seqs) if seqs else []
+    found = {}
+    for (key, pre), rr in zip(owners, got):
+        fc = failure_classes(rr) if rr else []
+        if fc and (key not in found or len(pre) < len(found[key][0])):
+            found[key] = (pre, fc)
+    stats["history_failures_investigated"] = len({k for k, _ in owners})
+    stats["history_failures_reproduced"] = len(found)
+    for key, b, r in pending:
+        text = b.decode("utf-8", "replace")
+        src = key.split("#")[0].split(":")[0]
+        if key in found:
+            pre, fc = found[key]
+            script = HSEP.join([by_key[k].decode("utf-8", "replace") for k in pre] + [text])
+            for ck, det in fc:
+                if ck.startswith("probe:") and any(redefines_probe_name(by_key[k].decode("utf-8", "replace")) for k in pre):
+                    excused += 1
+                    continue
+                classes.add(ck, script, det + "  [history of %d evaluations on one engine]" % (len(pre) + 1), src)
+        elif any(k == key for k, _ in owners):
+            for ck, det in failure_classes(r):
+                if ck.startswith("hang:"):
+                    continue
+                if ck.startswith("probe:") and any(redefines_probe_name(by_key[k].decode("utf-8", "replace")) for k in r.get("epoch", []) if k in by_key):
+                    excused += 1
+                    continue
+                classes.add("not-reproduced:" + ck, text, det + "  [seen once in a history of evaluations; neither the text alone nor its history reproduces it]", src)
     stats["probe_mismatch_excused_redefinition"] = excused
 
     run_histories(ctx, classes, stats)
+    run_model_correspondence(ctx, classes, stats)
 
     # (ii) built-ins
     t1 = time.time()
     run_builtins(ctx, classes, stats)
     stats["builtins_wall_s"] = round(time.time() - t1, 1)
 
+    check_site_table(ctx, classes, stats)
     decide(ctx, classes, known, stats)
     if not pr["ok"]:
         ctx.violation("C07-proof-broken.txt", "proof obligations of SteelVerif.C07.Props that no longer check:\n" +
